@@ -21,7 +21,7 @@ def run(rep, tier, seed, replay):
     found = False
 
     def crashed(l):
-        return (l.startswith("PANIC") or l.startswith("NOREPLY") or l.startswith("TIMEOUT") or l.endswith("load:PANIC")
+        return (l.startswith("PANIC") or l.startswith("NOREPLY") or l.startswith("TIMEOUT") or l.startswith("HANG") or l.endswith("load:PANIC")
                 or " PANIC " in " " + l.split(" | ")[0] + " ")   # sequences of replies (compression path): a panic anywhere
 
     # recursion depth: inputs built to nest / chain as deeply as possible, decoded in a child process whose
@@ -58,7 +58,7 @@ def run(rep, tier, seed, replay):
         if bad:
             i = min(bad, key=lambda j: len(cases[j]))
             found = True
-            rep.violation({"kind": "input", "mode": mode, "oracle": "the input must neither panic the process nor leave the request without a reply",
+            rep.violation({"kind": "input", "mode": mode, "oracle": "the input must neither panic the process, nor keep it busy for ever, nor leave the request without a reply",
                            "case": {"line": cases[i][:20000]}, "impl": impl[i][:2000], "model": model[i][:2000], "failing_cases": len(bad)})
         elif mm and not found:
             i = min(mm, key=lambda j: len(cases[j]))
